@@ -12,6 +12,7 @@ import numpy as np
 
 from .. import common as C
 from .. import impl
+from .. import robust
 from .. import solver
 
 PARTIAL = [
@@ -48,6 +49,8 @@ def _run_pair_in_subprocess(sc):
 
 def run(ctx, res):
     rng = np.random.default_rng(ctx["seed"] + 808)
+    # history- and representation-robustness scenarios (see harness/robust.py)
+    robust.run(res, np.random.default_rng(ctx["seed"] + 77), ctx, "C08")
     M = impl._minerals
     core = impl._core
     n_sc = 8 if not ctx["thorough"] else 60
